@@ -58,7 +58,7 @@ def _case(draw):
 
 def drivers(tier):
     th = tier == 'thorough'
-    return [dict(kind='hyp', name='exports', strategy=_case(), examples=20000 if th else 4000)]
+    return [dict(kind='hyp', name='exports', strategy=_case(), examples=50000 if th else 6000)]
 
 
 # ---------------------------------------------------------------------------------------------
